@@ -2,20 +2,20 @@ package stack
 
 import "sync"
 
+// minShrinkCap is the smallest backing array Pop bothers to shrink;
+// below this size the copy costs more than the memory it gives back.
+const minShrinkCap = 256
+
 // Stack implements the LIFO Stack.
 type Stack[T comparable] struct {
 	mu    sync.RWMutex
 	items []T
-	// count holds the number of occurrences of each value currently
-	// on the stack, so Search does not have to scan the whole slice.
-	count map[T]int
 }
 
 // New creates a new LIFO stack where the items are stored in a plain slice.
 func New[T comparable]() *Stack[T] {
 	return &Stack[T]{
-		mu:    sync.RWMutex{},
-		count: make(map[T]int),
+		mu: sync.RWMutex{},
 	}
 }
 
@@ -23,7 +23,6 @@ func New[T comparable]() *Stack[T] {
 func (s *Stack[T]) Push(item T) {
 	s.mu.Lock()
 	s.items = append(s.items, item)
-	s.count[item]++
 	s.mu.Unlock()
 }
 
@@ -33,18 +32,29 @@ func (s *Stack[T]) Pop() (item T) {
 	s.mu.Lock()
 	defer s.mu.Unlock()
 
-	if n := s.size(); n > 0 {
-		item = s.items[n-1]
-		s.items = s.items[:n-1]
+	n := s.size()
+	if n == 0 {
+		return
 	}
-	{
-		var s *Stack[T] = s
-		_ = s
-		var item T = item
-		_ = item
-		if s.count[item]--; s.count[item] == 0 {
-			delete(s.count, item)
+
+	item = s.items[n-1]
+	s.items = s.items[:n-1]
+
+	// A stack that has been drained to a quarter of its backing array is
+	// unlikely to need all of it again soon: hand half of it back to the GC.
+	if c := cap(s.items); c >= minShrinkCap && n <= c/4 {
+		{
+			var s *Stack[T] = s
+			_ = s
+			var n int = n
+			_ = n
+			var c int = c / 2
+			_ = c
+			items := make([]T, n, c)
+			copy(items, s.items[:n])
+			s.items = items
 		}
+
 	}
 
 	return
@@ -67,7 +77,13 @@ func (s *Stack[T]) Search(item T) bool {
 	s.mu.RLock()
 	defer s.mu.RUnlock()
 
-	return s.count[item] > 0
+	for i := 0; i < s.size(); i++ {
+		if s.items[i] == item {
+			return true
+		}
+	}
+
+	return false
 }
 
 // Size returns the LIFO stack size.
